@@ -15,6 +15,8 @@
 //!        serialised (a tokenizer function), l = memory layout of a matrix accessor (reported, never
 //!        required to agree: the statement is about values and behaviour, not layout);
 //!        st guard = the documented TokenizerNotSet refusal
+//! `inp.wide = 2`: as 1, and every training set is handed to `fit` in column-major (Fortran) order, so that
+//! models which keep (a copy of) the records or inherit their layout hold non-row-major matrices.
 //! `inp.wide = 1` (types with matrix parameters): the value is fitted on 8..12 features instead of 2..3, so
 //! that unrolled kernels and layout-dependent code paths are exercised; predictions / transforms are observed
 //! through every public calling form (owned array, view, column-major, strided view, dataset forms).
@@ -223,6 +225,9 @@ impl Ob {
     fn fold(&self) -> Dg {
         let mut g = Dg::new();
         for o in &self.0 {
+            if o["cls"] == "l" {
+                continue; // memory layout is reported, never compared (neither directly nor inside a folded digest)
+            }
             g = g.s(o["key"].as_str().unwrap()).s(o["st"].as_str().unwrap());
             let d = o["d"].as_array().unwrap();
             g = g.u(d[0].as_u64().unwrap()).u(d[1].as_u64().unwrap());
@@ -347,6 +352,7 @@ struct Cfg {
     var: usize,
     data: u64,
     wide: bool,
+    forder: bool,
     fmts: Vec<String>,
 }
 
@@ -484,6 +490,17 @@ thread_local! {
     /// case is generated with this many features (and correspondingly more samples) instead
     static WIDE: std::cell::Cell<usize> = std::cell::Cell::new(0);
 }
+thread_local! {
+    /// training data of the case are generated in column-major memory order
+    static FORDER: std::cell::Cell<bool> = std::cell::Cell::new(false);
+}
+fn laid_out<F: Fl>(a: Array2<F>) -> Array2<F> {
+    if FORDER.with(|f| f.get()) {
+        col_major(&a)
+    } else {
+        a
+    }
+}
 fn widen(nf: usize) -> usize {
     let w = WIDE.with(|w| w.get());
     if w > 0 && (nf == 2 || nf == 3) {
@@ -495,7 +512,7 @@ fn widen(nf: usize) -> usize {
 fn cloud<F: Fl>(seed: u64, n: usize, nf: usize, lo: f64, hi: f64) -> Array2<F> {
     let mut g = Lcg::new(seed);
     let (n, nf) = if widen(nf) != nf { (n + 2 * widen(nf), widen(nf)) } else { (n, nf) };
-    Array2::from_shape_fn((n, nf), |_| F::of(g.range(lo, hi)))
+    laid_out(Array2::from_shape_fn((n, nf), |_| F::of(g.range(lo, hi))))
 }
 /// the same values in column-major memory order
 fn col_major<F: Fl>(q: &Array2<F>) -> Array2<F> {
@@ -520,7 +537,7 @@ fn blobs<F: Fl>(seed: u64, k: usize, m: usize, nf: usize) -> (Array2<F>, Array1<
         let centre = (c as f64) * 3.0 * (if j % 2 == 0 { 1.0 } else { -0.5 }) + (j as f64) * 0.25;
         F::of(centre + g.range(-0.9, 0.9))
     });
-    (x, y)
+    (laid_out(x), y)
 }
 fn reg_data<F: Fl>(seed: u64, n: usize, nf: usize) -> (Array2<F>, Array1<F>) {
     let x: Array2<F> = cloud(seed, n, nf, -1.0, 3.5);
@@ -624,7 +641,7 @@ thread_local! {
 }
 /// the fixed inputs predictions / transforms are observed on (the same for every handle of a case)
 fn queries<F: Fl>(nf: usize) -> Array2<F> {
-    cloud(4242 + 31 * QSEED.with(|q| q.get()), 6, nf, -2.0, 5.0)
+    cloud::<F>(4242 + 31 * QSEED.with(|q| q.get()), 6, nf, -2.0, 5.0).as_standard_layout().to_owned()
 }
 macro_rules! by_ft {
     ($cfg:expr, $m:ident) => {
@@ -772,6 +789,38 @@ mod clu {
         o.f("predict1", Dg::new().u(m.predict(&q.row(1)) as u64));
         o
     }
+    /// one batch update of mini-batch k-means; "not yet converged" carries the updated model as well
+    pub fn kmeans_step<F: Fl, D: Distance<F> + std::fmt::Debug>(
+        vp: &KMeansValidParams<F, Xoshiro256Plus, D>,
+        m: Option<KMeans<F, D>>,
+        batch: &DatasetBase<Array2<F>, Array1<()>>,
+    ) -> Result<KMeans<F, D>, String> {
+        use linfa::traits::FitWith;
+        match vp.fit_with(m, batch) {
+            Ok(m) | Err(IncrKMeansError::NotConverged(m)) => Ok(m),
+            Err(e) => Err(e.to_string()),
+        }
+    }
+    /// the model after one further incremental step (restored-then-updated must equal original-then-updated)
+    pub fn kmeans_update<F: Fl, D: Distance<F> + std::fmt::Debug + Clone>(m: &KMeans<F, D>, dist: D, batch: &Array2<F>) -> Dg {
+        let vp = KMeans::<F, D>::params_with(m.centroids().nrows(), rng(5), dist).check().expect("harness: k-means update parameters");
+        match guarded(|| kmeans_step(&vp, Some(m.clone()), &DatasetBase::from(batch.clone()))) {
+            Ok(Ok(u)) => {
+                let q: Array2<F> = queries(2);
+                a2(u.centroids()).fs(u.cluster_count().iter()).f(u.inertia()).fs(u.transform(&q).iter()).us(u.predict(&q).iter())
+            }
+            Ok(Err(e)) => Dg::new().s("error").s(&e),
+            Err(msg) => Dg::new().s("panic in fit_with").s(&msg),
+        }
+    }
+    /// mini-batch fit from scratch over two batches
+    pub fn kmeans_incremental<F: Fl, D: Distance<F> + std::fmt::Debug>(vp: &KMeansValidParams<F, Xoshiro256Plus, D>, x: &Array2<F>) -> Result<KMeans<F, D>, String> {
+        let h = x.nrows() / 2;
+        let b1 = DatasetBase::from(x.slice(ndarray::s![..h, ..]).to_owned());
+        let b2 = DatasetBase::from(x.slice(ndarray::s![h.., ..]).to_owned());
+        let m = kmeans_step(vp, None, &b1)?;
+        kmeans_step(vp, Some(m), &b2)
+    }
     pub fn obs_gmm<F: Fl>(m: &GaussianMixtureModel<F>) -> Ob {
         let q: Array2<F> = queries(2);
         let mut o = Ob::new();
@@ -861,10 +910,19 @@ mod clu {
                             0 => p,
                             1 => p.n_runs(2).tolerance(<$F>::of(1e-3)).max_n_iterations(20).init_method(KMeansInit::Random),
                             2 => p.n_runs(1).init_method(KMeansInit::Precomputed(x.select(Axis(0), &[0, 1, 2]))),
-                            3 => KMeans::<$F, L2Dist>::params_with(0, rng(cfg.data), L2Dist),
-                            4 => p.tolerance(<$F>::of(0.0)),
-                            5 => p.n_runs(0),
+                            // user-supplied centroids in column-major order: the parameter set holds the matrix as given
+                            3 => p.n_runs(1).max_n_iterations(4).init_method(KMeansInit::Precomputed(col_major(&x.select(Axis(0), &[0, 1, 2])))),
+                            4 => KMeans::<$F, L2Dist>::params_with(0, rng(cfg.data), L2Dist),
+                            5 => p.tolerance(<$F>::of(0.0)),
+                            6 => p.n_runs(0),
                             _ => bad_var(cfg),
+                        };
+                        let incr = |vp: &KMeansValidParams<$F, Xoshiro256Plus, L2Dist>| -> Dg {
+                            match guarded(|| kmeans_incremental(vp, &x)) {
+                                Ok(Ok(m)) => obs_kmeans(&m).fold().s("ok"),
+                                Ok(Err(e)) => Dg::new().s("error").s(&e),
+                                Err(msg) => Dg::new().s("panic in fit_with").s(&msg),
+                            }
                         };
                         if cfg.ty == "KMeansParams" {
                             type P = KMeansParams<$F, Xoshiro256Plus, L2Dist>;
@@ -874,6 +932,7 @@ mod clu {
                                 o.f("tree", tree(p));
                                 o.d("validate", verdict(p));
                                 o.f("refit", fit_or(|| p.fit(&ds), |m| obs_kmeans(&m).fold()));
+                                o.f("refit.incremental", match p.check_ref() { Ok(vp) => incr(vp), Err(e) => Dg::new().s("error").s(&e.to_string()) });
                                 o
                             }, eq)
                         } else {
@@ -885,6 +944,7 @@ mod clu {
                                 o.f("tree", tree(p));
                                 o.d("validate", Dg::new().s("valid"));
                                 o.f("refit", fit_or(|| p.fit(&ds), |m| obs_kmeans(&m).fold()));
+                                o.f("refit.incremental", incr(p));
                                 o
                             }, eq)
                         }
@@ -900,7 +960,19 @@ mod clu {
                         match cfg.var {
                             0 => {
                                 let m = KMeans::<$F, L2Dist>::params_with(3, rng(cfg.data), L2Dist).n_runs(2).fit(&ds).expect("harness: setup: kmeans fit");
-                                hist!(ev, cfg, "model", KMeans<$F, L2Dist>, m, |m: &KMeans<$F, L2Dist>| obs_kmeans(m), eq)
+                                hist!(ev, cfg, "model", KMeans<$F, L2Dist>, m, |m: &KMeans<$F, L2Dist>| { let mut o = obs_kmeans(m); o.f("update", kmeans_update(m, L2Dist, &x)); o }, eq)
+                            }
+                            // centroids supplied by the user in column-major order: batch fit, mini-batch fit (keeps the
+                            // layout of the supplied matrix), and a mini-batch fit from a k-means++ start
+                            3 | 4 | 5 => {
+                                let p = KMeans::<$F, L2Dist>::params_with(3, rng(cfg.data), L2Dist).n_runs(1).max_n_iterations(4);
+                                let p = if cfg.var == 5 { p } else { p.init_method(KMeansInit::Precomputed(col_major(&x.select(Axis(0), &[0, 1, 2])))) };
+                                let m = if cfg.var == 3 {
+                                    p.fit(&ds).expect("harness: setup: kmeans fit")
+                                } else {
+                                    kmeans_incremental(&p.check().expect("harness: k-means parameters"), &x).expect("harness: setup: kmeans fit_with")
+                                };
+                                hist!(ev, cfg, "model", KMeans<$F, L2Dist>, m, |m: &KMeans<$F, L2Dist>| { let mut o = obs_kmeans(m); o.f("update", kmeans_update(m, L2Dist, &x)); o }, eq)
                             }
                             1 => {
                                 let m = KMeans::<$F, L1Dist>::params_with(2, rng(cfg.data), L1Dist)
@@ -908,11 +980,11 @@ mod clu {
                                     .max_n_iterations(3)
                                     .fit(&ds)
                                     .expect("harness: setup: kmeans fit");
-                                hist!(ev, cfg, "model", KMeans<$F, L1Dist>, m, |m: &KMeans<$F, L1Dist>| obs_kmeans(m), eq)
+                                hist!(ev, cfg, "model", KMeans<$F, L1Dist>, m, |m: &KMeans<$F, L1Dist>| { let mut o = obs_kmeans(m); o.f("update", kmeans_update(m, L1Dist, &x)); o }, eq)
                             }
                             2 => {
                                 let m = KMeans::<$F, LpDist<$F>>::params_with(3, rng(cfg.data), LpDist(<$F>::of(3.0))).n_runs(1).fit(&ds).expect("harness: setup: kmeans fit");
-                                hist!(ev, cfg, "model", KMeans<$F, LpDist<$F>>, m, |m: &KMeans<$F, LpDist<$F>>| obs_kmeans(m), eq)
+                                hist!(ev, cfg, "model", KMeans<$F, LpDist<$F>>, m, |m: &KMeans<$F, LpDist<$F>>| { let mut o = obs_kmeans(m); o.f("update", kmeans_update(m, LpDist(<$F>::of(3.0)), &x)); o }, eq)
                             }
                             _ => bad_var(cfg),
                         }
@@ -1495,7 +1567,9 @@ mod logi {
                         let p = match cfg.var {
                             0 => p.alpha(<$F>::of(0.5)).max_iterations(200),
                             1 => p.alpha(<$F>::of(0.2)).with_intercept(false).initial_params(Array2::from_shape_fn((nfeat, 3), |(i, j)| <$F>::of(0.1 * (i as f64) - 0.05 * (j as f64)))),
-                            2 => p.alpha(<$F>::of(-0.5)),
+                            // user-supplied start in column-major order
+                            2 => p.alpha(<$F>::of(0.3)).max_iterations(150).initial_params(col_major(&Array2::from_shape_fn((nfeat + 1, 3), |(i, j)| <$F>::of(0.07 * (i as f64) - 0.11 * (j as f64))))),
+                            3 => p.alpha(<$F>::of(-0.5)),
                             _ => bad_var(cfg),
                         };
                         match cfg.ty.as_str() {
@@ -1678,10 +1752,19 @@ mod svm {
                             0 => p.method(KernelMethod::Gaussian(<$F>::of(1.3))),
                             1 => p.method(KernelMethod::Polynomial(<$F>::of(0.5), <$F>::of(2.0))),
                             2 => p.method(KernelMethod::Gaussian(<$F>::of(0.9))).kind(KernelType::Sparse(3)),
-                            3 => p.method(KernelMethod::Linear).kind(KernelType::Sparse(2)).nn_algo(CommonNearestNeighbour::BallTree),
+                            3 | 5 => p.method(KernelMethod::Linear).kind(KernelType::Sparse(2)).nn_algo(CommonNearestNeighbour::BallTree),
+                            4 => p.method(KernelMethod::Gaussian(<$F>::of(1.1))),
                             _ => bad_var(cfg),
                         };
+                        // the k-d tree index documents that it needs contiguous points
+                        let x = if cfg.var == 2 { x.as_standard_layout().to_owned() } else { x };
                         let k: Kernel<$F> = p.transform(&x);
+                        // kernels assembled by the user from a matrix in another storage order (the fields are public)
+                        let k: Kernel<$F> = match (cfg.var, k.inner) {
+                            (4, linfa_kernel::KernelInner::Dense(a)) => Kernel { inner: linfa_kernel::KernelInner::Dense(col_major(&a)), method: k.method },
+                            (5, linfa_kernel::KernelInner::Sparse(a)) => Kernel { inner: linfa_kernel::KernelInner::Sparse(a.to_csc()), method: k.method },
+                            (_, inner) => Kernel { inner, method: k.method },
+                        };
                         hist!(ev, cfg, "model", Kernel<$F>, k, |k: &Kernel<$F>| obs_kernel(k), eq)
                     }};
                 }
@@ -1889,6 +1972,7 @@ mod trees {
 // --------------------------------------------------------------------------------- linfa-bayes
 mod bayes {
     use super::*;
+    use linfa::traits::FitWith;
     use linfa_bayes::*;
 
     pub fn t(ev: &mut Vec<Value>, cfg: &Cfg) -> bool {
@@ -1899,6 +1983,9 @@ mod bayes {
                         let (x, y) = blobs::<$F>(1800 + cfg.data, 3, 6, 2);
                         let x = x.mapv(|v| if cfg.ty.starts_with("Multinomial") { (v + <$F>::of(4.0)).abs() } else { v });
                         let ds = DatasetBase::new(x, y.mapv(|l| 5 + 2 * l));
+                        let (x2, y2) = blobs::<$F>(2800 + cfg.data, 3, 4, 2);
+                        let x2 = x2.mapv(|v| if cfg.ty.starts_with("Multinomial") { (v + <$F>::of(4.0)).abs() } else { v });
+                        let ds2 = DatasetBase::new(x2, y2.mapv(|l| 5 + 2 * l));
                         // queries strictly between the classes are avoided: ties are decided by hash-map order (C14/C20)
                         let q: Array2<$F> = queries::<$F>(2).mapv(|v| if cfg.ty.starts_with("Multinomial") { v.abs() } else { v });
                         macro_rules! model_obs {
@@ -1932,7 +2019,15 @@ mod bayes {
                                     _ => bad_var(cfg),
                                 };
                                 let m = p.fit(&ds).expect("harness: setup: gnb fit");
-                                hist!(ev, cfg, "model", GaussianNb<$F, usize>, m, model_obs!(GaussianNb<$F, usize>), eq)
+                                hist!(ev, cfg, "model", GaussianNb<$F, usize>, m, |m: &GaussianNb<$F, usize>| {
+                                    let mut o = model_obs!(GaussianNb<$F, usize>)(m);
+                                    // one further incremental batch: restored-then-updated must equal original-then-updated
+                                    o.f("update", match guarded(|| p.fit_with(Some(m.clone()), &ds2)) {
+                                        Ok(r) => err_or(r, |u| match u { Some(u) => model_obs!(GaussianNb<$F, usize>)(&u).fold(), None => Dg::new().s("no model") }),
+                                        Err(msg) => Dg::new().s("panic in fit_with").s(&msg),
+                                    });
+                                    o
+                                }, eq)
                             }
                             "MultinomialNb" => {
                                 let p = MultinomialNb::<$F, usize>::params();
@@ -1942,7 +2037,14 @@ mod bayes {
                                     _ => bad_var(cfg),
                                 };
                                 let m = p.fit(&ds).expect("harness: setup: mnb fit");
-                                hist!(ev, cfg, "model", MultinomialNb<$F, usize>, m, model_obs!(MultinomialNb<$F, usize>), eq)
+                                hist!(ev, cfg, "model", MultinomialNb<$F, usize>, m, |m: &MultinomialNb<$F, usize>| {
+                                    let mut o = model_obs!(MultinomialNb<$F, usize>)(m);
+                                    o.f("update", match guarded(|| p.fit_with(Some(m.clone()), &ds2)) {
+                                        Ok(r) => err_or(r, |u| match u { Some(u) => model_obs!(MultinomialNb<$F, usize>)(&u).fold(), None => Dg::new().s("no model") }),
+                                        Err(msg) => Dg::new().s("panic in fit_with").s(&msg),
+                                    });
+                                    o
+                                }, eq)
                             }
                             "GaussianNbValidParams" => {
                                 let p = GaussianNb::<$F, usize>::params();
@@ -2079,7 +2181,15 @@ mod ftrl {
                                 for _ in 0..(2 + cfg.var) {
                                     m = vp.fit_with(Some(m), &ds).expect("harness: setup: ftrl fit");
                                 }
-                                hist!(ev, cfg, "model", Ftrl<$F>, m, |m: &Ftrl<$F>| obs_ftrl(m), noeq)
+                                hist!(ev, cfg, "model", Ftrl<$F>, m, |m: &Ftrl<$F>| {
+                                    let mut o = obs_ftrl(m);
+                                    // one further incremental batch: restored-then-updated must equal original-then-updated
+                                    o.f("update", match guarded(|| vp.fit_with(Some(m.clone()), &ds)) {
+                                        Ok(r) => err_or(r, |u| obs_ftrl(&u).fold()),
+                                        Err(msg) => Dg::new().s("panic in fit_with").s(&msg),
+                                    });
+                                    o
+                                }, noeq)
                             }
                         }
                     }};
@@ -2681,7 +2791,8 @@ fn main() {
             ft: gets(inp, "ft").to_string(),
             var: geti(inp, "var") as usize,
             data: geti(inp, "data") as u64,
-            wide: inp.get("wide").and_then(|w| w.as_i64()).unwrap_or(0) == 1,
+            wide: inp.get("wide").and_then(|w| w.as_i64()).unwrap_or(0) >= 1,
+            forder: inp.get("wide").and_then(|w| w.as_i64()).unwrap_or(0) == 2,
             fmts: geta(inp, "fmts").iter().map(|x| x.as_str().unwrap().to_string()).collect(),
         };
         // A case needs a value to start from.  When the estimator itself fails on the seeded data (e.g. a power
@@ -2690,6 +2801,7 @@ fn main() {
         let mut cfg = cfg;
         for attempt in 0..6 {
             QSEED.with(|q| q.set(cfg.data));
+            FORDER.with(|w| w.set(cfg.forder));
             WIDE.with(|w| w.set(if cfg.wide { 8 + ((cfg.data + cfg.var as u64) % 5) as usize } else { 0 }));
             let ev = std::cell::RefCell::new(Vec::new());
             let r = guarded(|| {
